@@ -174,12 +174,65 @@ Definition calc_widths (stale capmin : bool) (o : topts) (cols : list tcol) (max
     Ok (zip_add widths pad)
   else Ok widths.
 
+(* The same solver with the flexible minimum of fixes/C07_ratio_column_minimum.diff as a third
+   variant switch.  flexmin = false: as in rich today, a ratio column is guaranteed
+   (width or 1) + padding cells; flexmin = true: at least its measured minimum as well.
+   `calc_widths` above is kept verbatim (other layers unfold it); TableP2.calc_widths_x_false
+   proves calc_widths_x false = calc_widths. *)
+Definition calc_widths_x (flexmin stale capmin : bool) (o : topts) (cols : list tcol) (max_width : Z)
+  : res (list Z) :=
+  let n := length cols in
+  let icols := indexed 0 cols in
+  let ranges := map (fun '(i, c) => measure_column o i c max_width) icols in
+  let widths := map (fun r => or1 (snd r)) ranges in
+  let extra := extra_width o n in
+  do widths <-
+    (if t_expand o then
+       let ratios := map (fun c => opt_or (c_ratio c) 0) (filter flexible cols) in
+       if any_nonzero ratios then
+         let fixed := map (fun '(r, c) => if flexible c then 0 else snd r) (combine ranges cols) in
+         let flex_min := map (fun '(r, (i, c)) =>
+                                let base := opt_or (c_width c) 1 + padding_width o i in
+                                if flexmin then Z.max base (fst r) else base)
+                             (filter (fun ric : (Z * Z) * (nat * tcol) => flexible (snd (snd ric)))
+                                     (combine ranges icols)) in
+         let flexible_width := max_width - sumZ fixed in
+         do fw <- ratio_distribute flexible_width ratios (Some flex_min);
+         assign_flex cols widths fixed fw
+       else Ok widths
+     else Ok widths);
+  let table_width := sumZ widths in
+  do wt <-
+    (if max_width <? table_width then
+       do w1 <- collapse_widths widths (map wrapable cols) max_width;
+       let tw1 := sumZ w1 in
+       let '(w2, tw2) :=
+         if max_width <? tw1 then
+           let w := ratio_reduce (tw1 - max_width) (repeat 1 (length w1)) w1 w1 in (w, sumZ w)
+         else (w1, tw1) in
+       let w3 := map (fun '(w, (i, c)) => or1 (snd (measure_column o i c w))) (combine w2 icols) in
+       Ok (w3, if stale then tw2 else sumZ w3)
+     else Ok (widths, table_width));
+  let '(widths, table_width) := wt in
+  if ((table_width <? max_width) && t_expand o)
+     || match o_minw o with Some m => table_width <? m - extra | None => false end
+  then
+    let mw := match o_minw o with
+              | None => max_width
+              | Some m => if negb capmin && t_expand o then max_width else Z.min (m - extra) max_width
+              end in
+    do pad <- ratio_distribute (mw - table_width) widths None;
+    Ok (zip_add widths pad)
+  else Ok widths.
+
 (* the width __rich_console__ solves for: Table.width if set, else the available width *)
 Definition target_width (o : topts) (avail : Z) : Z :=
   match o_width o with Some w => w | None => avail end.
 
 Definition table_widths (stale capmin : bool) (o : topts) (cols : list tcol) (avail : Z) : res (list Z) :=
   calc_widths stale capmin o cols (target_width o avail - extra_width o (length cols)).
+Definition table_widths_x (flexmin stale capmin : bool) (o : topts) (cols : list tcol) (avail : Z) : res (list Z) :=
+  calc_widths_x flexmin stale capmin o cols (target_width o avail - extra_width o (length cols)).
 
 (* the tables for which "asked to expand => exactly the width asked for" is claimed (theorem
    C07_table_expand_exact) and checked on the implementation (spec.expand_exact): expand or width
